@@ -71,6 +71,35 @@ def deep_symbolic(root):
   return out
 
 
+def deep_leaves(root):
+  """Mutable non-symbolic leaf objects reachable from root, also through tuples and plain containers."""
+  out = {}
+  seen = set()
+
+  def rec(v, depth=0):
+    if depth > 12 or isinstance(v, pg.Ref) or id(v) in seen:
+      return
+    if isinstance(v, (int, float, str, bool, bytes, type(None), type)) or pg.MISSING_VALUE == v or callable(v):
+      return
+    seen.add(id(v))
+    if isinstance(v, (pg.Dict, pg.List, pg.Object)):
+      for _, c in v.sym_items():
+        rec(c, depth + 1)
+    elif isinstance(v, pg.Symbolic):
+      return
+    elif isinstance(v, (tuple, list)):
+      for c in v:
+        rec(c, depth + 1)
+    elif isinstance(v, dict):
+      for c in v.values():
+        rec(c, depth + 1)
+    else:
+      out[id(v)] = v
+
+  rec(root)
+  return out
+
+
 def refs(root):
   out = []
   for keys, node, _, _ in st.walk(root):
@@ -129,6 +158,12 @@ def fidelity(a, b, how, rec, trace, label):
       bad = True
     if deep and any(same) and la:
       rec.viol(f'deep-shares-leaf/{base}', 'a deep clone shares a mutable non-symbolic leaf object', trace)
+      bad = True
+  if deep:
+    both = set(deep_leaves(a)) & set(deep_leaves(b))
+    if both:
+      rec.viol(f'deep-shares-leaf-below-tuple/{base}', f'a deep clone shares {len(both)} mutable non-symbolic leaf object(s) '
+               f'(reached through tuples / plain containers): {[type(deep_leaves(a)[i]).__name__ for i in both][:3]}', trace)
       bad = True
   ra, rb = refs(a), refs(b)
   if [k for k, _ in ra] != [k for k, _ in rb] or any(x.value is not y.value for (_, x), (_, y) in zip(ra, rb)):
